@@ -55,9 +55,9 @@ def confirm(cand, name, ref):
         rc, out = sh(["go", "build", "-o", binp + "_orig", "."], cwd=wt)
         # demos take either the gopherjs binary or the worktree as $1: try the binary first, then the worktree
         mode = "bin"
-        rc0, out0 = sh(["bash", "run.sh", binp + "_orig", wt], cwd=demo, timeout=1800)
+        rc0, out0 = sh(["bash", "run.sh", binp + "_orig"], cwd=demo, timeout=1800)
         if rc0 != 0:
-            rc0b, out0b = sh(["bash", "run.sh", wt, binp + "_orig"], cwd=demo, timeout=1800)
+            rc0b, out0b = sh(["bash", "run.sh", wt], cwd=demo, timeout=1800)
             if rc0b == 0:
                 mode, rc0, out0 = "wt", rc0b, out0b
         rec["demo_arg_mode"] = mode
@@ -74,7 +74,7 @@ def confirm(cand, name, ref):
             if rc != 0:
                 print(out[-800:]); ok = False
             else:
-                rc1, out1 = sh(["bash", "run.sh"] + ([binp, wt] if mode == "bin" else [wt, binp]), cwd=demo, timeout=1800)
+                rc1, out1 = sh(["bash", "run.sh"] + ([binp] if mode == "bin" else [wt]), cwd=demo, timeout=1800)
                 rec["ran"].append("demo/run.sh with the change -> exit %d" % rc1)
                 rec["demo_fails_with"] = rc1 != 0
                 rc2, out2 = sh([sys.executable, os.path.join(VERIF, "harness", "py", "baseline_cmp.py"), wt], timeout=7200,
